@@ -5,6 +5,7 @@ LEVEL = 'other'
 
 
 def build(ctx):
+    ctx.task('contracts.pipeline:task_pipeline')      # assemble() establishes what each pass contract assumes
     ctx.task('contracts.reader:task_reader')
     ctx.task('contracts.cli:task_cli')
     # line-independence frame: every pass runs with opaque Line fields (file / number / contents); a pass that branched on
